@@ -358,6 +358,17 @@ def s7(ctx):
                     dur_ok = True
             if not ok or not dur_ok:
                 ctx.violate(b.key, p, 'wait_timeout deadline is not Instant::now()+duration evaluated before registration: %s' % fmt(dl), at=w.at)
+        # an unbounded wait after the timed wait is allowed only once the cancel attempt (under the blocking lock)
+        # has FAILED, i.e. a peer owns the waiter and will finish shortly; otherwise the deadline is ignored
+        for w in wts:
+            later = [e for e in evs if e.name == 'SIG.wait' and e.idx > w.idx]
+            for lw in later:
+                ctx.oblige(1)
+                between = [(e.data['label'], e.data['outcome']) for e in evs if e.name == 'BR' and w.idx < e.idx < lw.idx]
+                if ('cancel', 'F') not in between:
+                    ctx.violate(b.key, p, 'after the timed wait expired the operation falls into an unbounded wait without a failed cancel attempt in between (it stays registered past its deadline and never reports Timeout)', at=lw.at)
+                if ('trylocked', 'None') in between or ('trylocked', 'Some') in between:
+                    ctx.violate(b.key, p, 'the post-deadline cancel uses a try-lock: when the lock is busy the waiter is not removed', at=lw.at)
         if rk == 'err:Timeout':
             ctx.oblige(1, sample='%s Timeout path [%s]' % (b.key, p.signature()))
             regs = [e for e in evs if e.name == 'PUSH_SEND']
